@@ -6,6 +6,7 @@
 // and the explorer forks a fresh one.
 #include "vsched.h"
 
+#include <errno.h>
 #include <poll.h>
 #include <semaphore.h>
 #include <signal.h>
@@ -554,6 +555,7 @@ bool read_n(int fd, size_t n, std::string* out, int timeout_ms) {
   while (out->size() < n) {
     struct pollfd pfd{fd, POLLIN, 0};
     int pr = poll(&pfd, 1, timeout_ms);
+    if (pr < 0 && errno == EINTR) continue;
     if (pr <= 0) return false;
     size_t want = std::min(sizeof(buf), n - out->size());
     ssize_t k = ::read(fd, buf, want);
@@ -568,6 +570,7 @@ bool read_line(int fd, std::string* out, int timeout_ms) {
   for (;;) {
     struct pollfd pfd{fd, POLLIN, 0};
     int pr = poll(&pfd, 1, timeout_ms);
+    if (pr < 0 && errno == EINTR) continue;
     if (pr <= 0) return false;
     char c;
     ssize_t k = ::read(fd, &c, 1);
@@ -677,6 +680,25 @@ Result explore(const std::function<void()>& body, const Options& opt) {
       std::vector<int> prefix = std::move(queue[b].front());
       queue[b].pop_front();
       RunOut r = run_child(body, opt, prefix, nullptr, false);
+      if (root && r.status == ST_OK) {
+        // determinism self-test: executions share a worker process, so the harness body must be re-entrant;
+        // the root schedule is run a second time and must record identical decision points and observations
+        RunOut again = run_child(body, opt, prefix, nullptr, true);
+        bool same = again.status == ST_OK && again.points.size() == r.points.size() && again.log == r.log;
+        for (size_t i = 0; same && i < r.points.size(); i++) {
+          same = r.points[i].cur == again.points[i].cur && r.points[i].enabled == again.points[i].enabled;
+          if (!same) {
+            std::fprintf(stderr, "vsched: first difference at point %zu: cur %d/%d, enabled %zu/%zu\n", i, r.points[i].cur,
+                         again.points[i].cur, r.points[i].enabled.size(), again.points[i].enabled.size());
+          }
+        }
+        if (!same) {
+          std::fprintf(stderr, "vsched: HARNESS ERROR: the harness body is not re-entrant (second run of the default schedule "
+                               "differs: %zu vs %zu points, status %s)\n%s\n", r.points.size(), again.points.size(),
+                       status_name(again.status), again.trace.substr(0, 4000).c_str());
+          std::exit(2);
+        }
+      }
       bool counted = !(root && opt.shard != 0);
       if (counted) {
         res.executions++;
@@ -687,6 +709,10 @@ Result explore(const std::function<void()>& body, const Options& opt) {
       for (auto& p : r.points) choices.push_back(p.chosen);
       if (res.schedule_samples.size() < 3 && prefix.size() > 0) res.schedule_samples.push_back(join_ints(choices));
       if (r.status != ST_OK) {
+        if (std::getenv("VSCHED_VERBOSE")) {
+          std::fprintf(stderr, "vsched: %s: %s [prefix %s] npoints=%zu\n", status_name(r.status), r.failure.c_str(),
+                       join_ints(prefix).c_str(), r.points.size());
+        }
         if (r.status == ST_DIVERGED) {
           std::fprintf(stderr, "vsched: HARNESS ERROR: %s (prefix %s)\n", r.failure.c_str(), join_ints(prefix).c_str());
           std::exit(2);
@@ -694,7 +720,9 @@ Result explore(const std::function<void()>& body, const Options& opt) {
         // believe a failure only if it reproduces twice with identical observations
         RunOut r2 = run_child(body, opt, choices.size() ? choices : prefix, nullptr, false);
         RunOut r3 = run_child(body, opt, choices.size() ? choices : prefix, nullptr, false);
-        if (r2.status != r.status || r3.status != r.status || r2.log != r.log || r3.log != r.log) {
+        // the same schedule must fail every time; the *kind* of failure may differ between runs when the defect
+        // corrupts memory (executions share a worker process), which is still a reproducible failure
+        if (r2.status == ST_OK || r3.status == ST_OK) {
           std::fprintf(stderr, "vsched: HARNESS ERROR: failure not reproducible under the same schedule (%s / %s / %s)\n",
                        status_name(r.status), status_name(r2.status), status_name(r3.status));
           std::exit(2);
@@ -708,6 +736,7 @@ Result explore(const std::function<void()>& body, const Options& opt) {
             res.first_failure_schedule = join_ints(choices.size() ? choices : prefix);
           }
         }
+        if (res.failures >= 5) { res.capped = true; break; }   // enough counterexamples: stop (reported as capped)
       }
       // children
       int cost = b;
